@@ -226,3 +226,7 @@ void h_wchar(void) {
   VASSERT(t->val == (int64_t)IN.c && t->ty == ty_int, "wide character constant has the code point as value, type int (wchar_t)");
   VCOVER();
 }
+
+// diagnostic path (cbmc only: --replace-calls error_at:stub_error_at): the real error_at scans the
+// source line, measures its display width, prints and exits; here it just ends the path.
+noreturn void stub_error_at(char *loc, char *fmt, ...) { verif_exit(1); }
